@@ -1,5 +1,7 @@
 import Chewing.Proofs.ConvChewing
 import Chewing.Proofs.ConvSimpleInv
+import Chewing.Proofs.ConvLive
+import Chewing.Proofs.ConvSpec
 /-!
 # C03 — Conversion always tiles the whole buffer, one output character per symbol
 
@@ -184,5 +186,174 @@ theorem break_not_spanned (hc : CompValid c) (hd : NoEmptyKey d) (h : convert pi
   | simple =>
     cases Outcome.ok.inj h
     exact simple_noBreak hc (mem_convertSimple halt hiv) i h1 h2 hb
+
+/-! ## Liveness: a result exists (no panic, the fuel suffices) -/
+
+/-- **termination / fuel sufficiency** of the two `while` loops (`'bfs`, path walk-back): on a graph of
+    valid edges `shortest_path` never exhausts the fuel `shortestPath` supplies (`len + 2` dequeues,
+    `len + 1` walk-back steps) and never panics, for every `removed_edges` state and source -/
+theorem shortest_path_terminates {es : List Edge} {len : Nat} (hv : EdgesValid len es) (removed : List Nat)
+    {source : Nat} (hs : source ≤ len) : ∃ r, shortestPath es len removed source = .ok r :=
+  shortestPath_total hv removed hs
+
+/-- … and the graph `find_intervals` builds is such a graph -/
+theorem find_intervals_valid {strat : Strategy} {es : List Edge} (hc : CompValid c) (hd : NoEmptyKey d)
+    (h : findIntervals d strat c = .ok es) : EdgesValid c.symbols.length es :=
+  edgesValid_of_findIntervals hc hd h
+
+/-- … and BFS is complete: it finds a path whenever the graph has one (first call: nothing removed) -/
+theorem shortest_path_complete {es : List Edge} {len : Nat} (hv : EdgesValid len es) {p : Path}
+    (hp : IsChain es 0 len p) : ∃ p', shortestPath es len [] 0 = .ok (some p') :=
+  shortestPath_complete hv [] hp (fun _ _ _ _ h => by cases h)
+
+/-- the raw k-shortest paths exist whenever every syllable has a word: the `unwrap()` of F02 cannot
+    fire, no index is out of range, the fuel suffices — no bound on frequencies needed -/
+theorem no_path_panic {strat : Strategy} (hp : PickInRange pick) (hc : CompValid c) (hd : NoEmptyKey d)
+    (hw : HasWord d strat c) : ∃ paths, rawPaths pick d strat c = .ok paths ∧ paths ≠ [] ∧ trimPaths paths ≠ [] := by
+  obtain ⟨_, paths, _, h1, h2, h3⟩ := rawPaths_live hp hc hd hw
+  exact ⟨paths, h1, h2, h3⟩
+
+/-- **nonempty_result**: with a word for every syllable every engine returns at least one alternative —
+    no panic, no exhausted fuel (`ScoreBound` keeps the `i32` score arithmetic of the debug profile in range) -/
+theorem nonempty_result (hp : PickInRange pick) (hc : CompValid c) (hd : NoEmptyKey d)
+    (hw : HasWord d eng.strategy c) (hb : ScoreBound d eng.strategy c) :
+    ∃ alts, convert pick eng d c = .ok alts ∧ alts ≠ [] := by
+  cases eng with
+  | chewing => exact convertChewing_live hp hc hd hw hb
+  | fuzzy => exact convertChewing_live hp hc hd hw hb
+  | simple => exact ⟨_, rfl, by simp [convertSimple]⟩
+
+/-- the canonical oracle (first candidate of minimal length) is in range -/
+theorem pickFirstMin_inRange : PickInRange pickFirstMin := by
+  intro kth cands hne
+  unfold pickFirstMin
+  cases hm : (cands.map (·.length)).min? with
+  | none =>
+    simp only
+    exact List.length_pos_iff.mpr hne
+  | some m =>
+    simp only
+    cases hf : cands.findIdx? (fun p => decide (p.length = m)) with
+    | none => exact List.length_pos_iff.mpr hne
+    | some i => exact (List.findIdx?_eq_some_iff_findIdx_eq.mp hf).1
+
+/-! ## The full statement, its refutation (F31) and the partial theorem -/
+
+/-- everything C03 (and the conversion half of C04) claims about one conversion -/
+structure Holds (pick : Nat → List Path → Nat) (eng : Engine) (d : Dict) (c : Composition) : Prop where
+  live : ∃ alts, convert pick eng d c = .ok alts ∧ alts ≠ []
+  sound : ∀ alts, convert pick eng d c = .ok alts → ∀ alt ∈ alts,
+    Tiling alt c.symbols.length ∧
+    (∀ iv ∈ alt, iv.text.length = iv.stop - iv.start ∧ Prov d eng.strategy c iv ∧
+      textAt alt iv.start iv.stop = iv.text) ∧
+    (display alt).length = c.symbols.length ∧
+    (∀ i cp, c.symbols[i]? = some (Sym.chr cp) →
+      ({ start := i, stop := i + 1, isPhrase := false, text := [cp] } : Interval) ∈ alt) ∧
+    (∀ x ∈ c.selections, textAt alt x.start x.stop = x.text) ∧
+    (∀ i, gapAt c i = some Gap.brk → ∀ iv ∈ alt, ¬ (iv.start < i ∧ i < iv.stop))
+
+/-- the property as worded: every composition the public API can build (only the invariant of the Rust
+    type is assumed), every dictionary with a word per syllable -/
+def C03_full : Prop :=
+  ∀ pick eng d c, PickInRange pick → c.symbols.length = c.gaps.length → NoEmptyKey d → WellFormed d →
+    HasWord d eng.strategy c → ScoreBound d eng.strategy c → Holds pick eng d c
+
+/-- the partial theorem: the extra hypothesis `CompValid c` excludes exactly the class
+    `F31-invalid-selection` (a selection that is empty / out of range / of the wrong text length / over
+    a non-syllable / across a break / intersecting another) -/
+theorem C03_partial : ∀ pick eng d c, PickInRange pick → CompValid c → NoEmptyKey d → WellFormed d →
+    HasWord d eng.strategy c → ScoreBound d eng.strategy c → Holds pick eng d c := by
+  intro pick eng d c hp hc hd hw hh hb
+  have hs : eng = .simple → HasWord d .standard c := fun h => by subst h; exact hh
+  refine ⟨nonempty_result hp hc hd hh hb, ?_⟩
+  intro alts h alt halt
+  have hdisp := display_is_concat hc hd hw hs h alt halt
+  refine ⟨tiles hc hd h alt halt, ?_, hdisp.1, ?_, ?_, ?_⟩
+  · intro iv hiv
+    exact ⟨one_char_per_symbol hc hd hw hs h alt halt iv hiv, provenance hc hd hs h alt halt iv hiv, hdisp.2 iv hiv⟩
+  · intro i cp hi
+    exact char_symbols_verbatim hc hd h hi alt halt
+  · intro x hx
+    exact selection_shown hc hd hw hs h hx alt halt
+  · intro i hb' iv hiv
+    exact break_not_spanned hc hd h hb' alt halt iv hiv
+
+/-! ### witnesses -/
+
+/-- `ㄘㄜˋ` (10268), `ㄕˋ` (1100): 測 試 冊, 測試 -/
+def dEx : Dict := Dict.ofEntries
+  [([10268], ⟨[28204], 5, none⟩), ([10268], ⟨[20874], 5, none⟩), ([1100], ⟨[35430], 3, none⟩),
+   ([10268, 1100], ⟨[28204, 35430], 100, none⟩)]
+
+theorem dEx_ok : NoEmptyKey dEx ∧ WellFormed dEx :=
+  ⟨noEmptyKey_ofEntries (by decide), wellFormed_ofEntries (by decide)⟩
+
+/-- F31, wrong text length: `[ㄘㄜˋ]` + `push_selection(0..1, "冊冊冊")` -/
+def cWrongLen : Composition :=
+  { symbols := [.syl 10268], gaps := [.begin], selections := [⟨0, 1, true, [20874, 20874, 20874]⟩] }
+
+/-- **C03_full_refuted** (F31): without `CompValid` the statement is false — a selection whose text has
+    the wrong length is shown verbatim: 3 characters for 1 symbol -/
+theorem C03_full_refuted : ¬ C03_full := by
+  intro h
+  have hh := h pickFirstMin .simple dEx cWrongLen pickFirstMin_inRange rfl dEx_ok.1 dEx_ok.2 (by decide)
+    (scoreBound_ofEntries (by decide) (by decide))
+  have hconv : convert pickFirstMin .simple dEx cWrongLen = .ok [[⟨0, 1, true, [20874, 20874, 20874]⟩]] := by decide
+  have := (hh.sound _ hconv _ (List.mem_singleton.mpr rfl)).2.1
+    ⟨0, 1, true, [20874, 20874, 20874]⟩ (List.mem_singleton.mpr rfl)
+  exact absurd this.1 (by decide)
+
+/-- F31, a selection left over a replaced symbol (`push(ㄘㄜˋ); push(ㄕˋ); push_selection(0..2, "測試");
+    replace(0, 'a')`): the Chewing engine panics on `unwrap()` (no path) -/
+theorem invalid_selection_panics :
+    convert pickFirstMin .chewing dEx
+      { symbols := [.chr 97, .syl 1100], gaps := [.begin, .normal], selections := [⟨0, 2, true, [28204, 35430]⟩] }
+      = .panic "called `Option::unwrap()` on a `None` value (no path)" := by decide
+
+/-- F31, `push(ㄘㄜˋ); push_selection(0..1, "冊"); replace(0, 'A')`: the selection is silently not shown -/
+theorem invalid_selection_not_shown :
+    convert pickFirstMin .chewing dEx
+      { symbols := [.chr 65], gaps := [.begin], selections := [⟨0, 1, true, [20874]⟩] }
+      = .ok [[⟨0, 1, false, [65]⟩]] := by decide
+
+/-- F02 (outside the quantifier): a syllable without a word makes the Chewing engine panic … -/
+theorem no_word_chewing_panics :
+    convert pickFirstMin .chewing (Dict.ofEntries []) { symbols := [.syl 10268], gaps := [.begin] }
+      = .panic "called `Option::unwrap()` on a `None` value (no path)" := by decide
+
+/-- … and F30: the simple engine shows its Bopomofo spelling, 3 characters (`ㄘㄜˋ`) for 1 symbol -/
+theorem no_word_simple_spelling :
+    convert pickFirstMin .simple (Dict.ofEntries []) { symbols := [.syl 10268], gaps := [.begin] }
+      = .ok [[⟨0, 1, true, [12568, 12572, 715]⟩]] := by decide
+
+/-- F39 (why `NoEmptyKey`): an entry under the empty key yields a `(0, 0)` edge and the index
+    `start * len + end - 1` underflows -/
+theorem empty_key_panics :
+    convert pickFirstMin .chewing (Dict.ofEntries [([], ⟨[28204], 1, none⟩), ([10268], ⟨[28204], 1, none⟩)])
+      { symbols := [.syl 10268], gaps := [.begin] }
+      = .panic "attempt to subtract with overflow (start * len + end - 1)" := by decide
+
+/-- non-vacuity: a composition with a selection, a break, a glue mark and a character satisfies every
+    hypothesis, and this is what the three engines return for it -/
+def cEx : Composition :=
+  { symbols := [.syl 10268, .syl 1100, .syl 10268, .syl 1100, .chr 97, .syl 10268],
+    gaps := [.begin, .normal, .glue, .brk, .normal, .normal],
+    selections := [⟨0, 1, true, [20874]⟩] }
+
+example : CompValid cEx ∧ HasWord dEx .standard cEx ∧ HasWord dEx .fuzzyPartialPrefix cEx ∧
+    ScoreBound dEx .standard cEx :=
+  ⟨by decide, by decide, by decide, scoreBound_ofEntries (by decide) (by decide)⟩
+
+example : convert pickFirstMin .chewing dEx cEx =
+    .ok [[⟨0, 1, true, [20874]⟩, ⟨1, 3, true, [35430, 28204]⟩, ⟨3, 4, true, [35430]⟩, ⟨4, 5, false, [97]⟩,
+          ⟨5, 6, true, [28204]⟩]] := by decide
+
+example : convert pickFirstMin .simple dEx cEx =
+    .ok [[⟨0, 1, true, [20874]⟩, ⟨1, 2, true, [35430]⟩, ⟨2, 3, true, [28204]⟩, ⟨3, 4, true, [35430]⟩,
+          ⟨4, 5, false, [97]⟩, ⟨5, 6, true, [28204]⟩]] := by decide
+
+example : Holds pickFirstMin .chewing dEx cEx :=
+  C03_partial _ _ _ _ pickFirstMin_inRange (by decide) dEx_ok.1 dEx_ok.2 (by decide)
+    (scoreBound_ofEntries (by decide) (by decide))
 
 end Chewing.C03
